@@ -1,4 +1,4 @@
-import TrVerif.Model.Driver
+import TrVerif.Model.Block
 open Tr
 
 partial def loop (h : IO.FS.Stream) (st : DState) : IO Unit := do
